@@ -127,15 +127,54 @@ func rulePsyncWire(w *core.World, r *core.Report) {
 	}
 }
 
-// allocNamed finds the Alloc of a named local/result.
-func allocNamed(f *ssa.Function, name string) *ssa.Alloc { return core.NamedCell(f, name) }
+// allocReceiving finds the local variable that is assigned result #idx of a
+// call matching is (a variable is identified by what is stored into it, not
+// by its name).
+func allocReceiving(f *ssa.Function, is func(core.Site) bool, idx int) *ssa.Alloc {
+	var found *ssa.Alloc
+	for _, in := range core.Instrs(f) {
+		st, ok := in.(*ssa.Store)
+		if !ok {
+			continue
+		}
+		a, ok := st.Addr.(*ssa.Alloc)
+		if !ok {
+			continue
+		}
+		e, ok := core.Unwrap(st.Val).(*ssa.Extract)
+		if !ok || e.Index != idx {
+			continue
+		}
+		c, ok := e.Tuple.(*ssa.Call)
+		if !ok || !is(core.ResolveCall(c)) {
+			continue
+		}
+		if found != nil && found != a {
+			return nil // ambiguous
+		}
+		found = a
+	}
+	return found
+}
 
 func ruleSyncMetaPaths(w *core.World, r *core.Report) {
 	f := fn(w, r, syncMetaFn)
 	if f == nil {
 		return
 	}
-	loc, out, syn, sOff := allocNamed(f, "locSp"), allocNamed(f, "outSp"), allocNamed(f, "synSp"), allocNamed(f, "sOffset")
+	// the four positions syncMeta juggles, by role: what the target reported, what the cache reported,
+	// the "initial" point (the one Initialize() is called on), and the source's PSYNC answer
+	out := allocReceiving(f, func(s core.Site) bool { return s.Name == "(*syncer.RedisInput).getOutputStartPoint" }, 0)
+	loc := allocReceiving(f, func(s core.Site) bool {
+		return s.Common().IsInvoke() && s.Method == "StartPoint" && strings.HasSuffix(core.TypeName(s.Common().Value.Type()), "syncer.Channel")
+	}, 0)
+	sOff := allocReceiving(f, func(s core.Site) bool { return s.Name == "(*syncer.RedisInput).pSync" }, 0)
+	var syn *ssa.Alloc
+	for _, s := range core.SitesNamed(f, false, "(*syncer.StartPoint).Initialize") {
+		if a, ok := s.Recv().(*ssa.Alloc); ok {
+			syn = a
+		}
+	}
 	if loc == nil || out == nil || syn == nil || sOff == nil {
 		r.Unresolved("syncMeta/locals", "locSp/outSp/synSp/sOffset not found")
 		return
